@@ -1,6 +1,5 @@
 package main
 
-func genRomWin(l *loader)    {}
 func genCpuTables(l *loader) {}
 func genAsm(l *loader)       {}
 func genHeader(l *loader)    {}
